@@ -146,3 +146,26 @@ func TestProbe_Template(t *testing.T) {
 		r.close()
 	}
 }
+
+func TestProbe_LateCheckIn(t *testing.T) {
+	if os.Getenv("VERIF_PROBE") == "" {
+		t.Skip("development probe")
+	}
+	ctx := context.Background()
+	sc := Scenario{N: 3, T: 2, L: 8, Order: []int{0, 1, 2}, Byz: map[int]ByzStrategy{}, Fair: true, StartLate: map[int]int{2: 2}}
+	r, err := newRun(ctx, sc, fixedChooser{})
+	if err != nil {
+		t.Fatal(err)
+	}
+	defer r.close()
+	r.plainSchedule = true
+	if err := r.execute(); err != nil {
+		t.Fatalf("%v\n%s", err, r.history())
+	}
+	st, _ := r.checkAgreement(func(sig, f string, a ...any) { t.Errorf("FAIL %s: "+f, append([]any{sig}, a...)...) }, true)
+	t.Logf("stats=%+v h0=%d", st, r.h0)
+	for _, tx := range r.chain.AllTxs {
+		t.Logf("h=%d(%+d) %s code=%d %s", tx.Height, tx.Height-r.h0, tx.Origin, tx.Code, msgKind(tx))
+	}
+	t.Logf("step errors: %v", r.stepErrors)
+}
